@@ -54,6 +54,7 @@ type FuncContract struct {
 	File      string
 	Used      bool
 	Havoc     []string
+	Flags     [][]string // ghost flags: name set k:pat clear k:pat
 	Extra     map[string][]*Clause
 }
 
@@ -126,6 +127,7 @@ type ContractFile struct {
 	Lemmas   []*Lemma
 	Invs     []*StructInv
 	Globals  []*GlobalDecl
+	Immutable []string // "T.f": fields never written after construction (kept across havocs; writes are obligations)
 	Axioms   []*Clause
 	LockOrder [][]string
 }
@@ -134,10 +136,10 @@ var clauseKeywords = map[string]bool{
 	"tags": true, "safetytags": true, "requires": true, "ensures": true, "atrelease": true, "modifies": true, "loop": true, "invariant": true,
 	"trusted": true, "pure": true, "safety": true, "nosafety": true, "inline": true, "acquires": true, "releases": true,
 	"site": true, "params": true, "hyp": true, "show": true, "vars": true, "smt": true, "protects": true, "inv": true, "guar": true,
-	"havoc": true, "loopmodifies": true, "assume": true, "trust": true, "use": true,
+	"havoc": true, "ghostflag": true, "loopmodifies": true, "assume": true, "trust": true, "use": true,
 }
 var declKeywords = map[string]bool{
-	"func": true, "spec": true, "monitor": true, "lemma": true, "structinv": true, "global": true, "axiom": true, "order": true, "libspec": true, "iface": true,
+	"func": true, "spec": true, "immutable": true, "monitor": true, "lemma": true, "structinv": true, "global": true, "axiom": true, "order": true, "libspec": true, "iface": true,
 }
 
 func parseContractFile(path, pkg string) (*ContractFile, error) {
@@ -257,6 +259,8 @@ func parseContractFile(path, pkg string) (*ContractFile, error) {
 			}
 			cf.Lemmas = append(cf.Lemmas, curLemma)
 			mode = "lemma"
+		case "immutable":
+			cf.Immutable = append(cf.Immutable, strings.Fields(strings.ReplaceAll(it.text, ",", " "))...)
 		case "global":
 			name, rest := splitWord(it.text)
 			cf.Globals = append(cf.Globals, &GlobalDecl{Name: name, Mode: strings.TrimSpace(rest), Line: it.line})
@@ -328,6 +332,9 @@ func parseContractFile(path, pkg string) (*ContractFile, error) {
 					curF.Releases = append(curF.Releases, strings.Fields(it.text)...)
 				case "params":
 					curF.Params = strings.Fields(strings.ReplaceAll(it.text, ",", " "))
+				case "ghostflag":
+					// ghostflag <name> set <kind>:<pattern> [clear <kind>:<pattern>]
+					curF.Flags = append(curF.Flags, strings.Fields(it.text))
 				case "havoc":
 					curF.Havoc = append(curF.Havoc, strings.Fields(strings.ReplaceAll(it.text, ",", " "))...)
 				case "site":
